@@ -377,12 +377,16 @@ func (response *InboundCallResponse) SendSystemError(err error) error {
 	response.state = reqResWriterComplete
 	response.systemError = true
 	response.setSpanErrorDetails(err)
+
+	// Queue the error frame before completing the exchange: removing the last
+	// exchange of a connection that is closing gracefully closes it, and a
+	// closed connection refuses the frame.
+	span := CurrentSpan(response.mex.ctx)
+	sendErr := response.conn.SendSystemError(response.mex.msgID, *span, err)
+
 	response.doneSending()
 	response.call.releasePreviousFragment()
-
-	span := CurrentSpan(response.mex.ctx)
-
-	return response.conn.SendSystemError(response.mex.msgID, *span, err)
+	return sendErr
 }
 
 // SetApplicationError marks the response as being an application error.  This method can
